@@ -379,7 +379,7 @@ PROPS["C15"] = {
     "quick": {"shards": 8, "budget_s": 30, "watchdog_s": 900},
     "thorough": {"shards": 16, "budget_s": 420, "watchdog_s": 3600},
     "floor": {"quick": 100, "thorough": 1200},
-    "require_counters": {"quick": {"full_formats_checked": 100, "range_formats_checked": 300, "ontype_formats_checked": 300, "webide_formats_checked": 100}, "thorough": {"full_formats_checked": 1200}},
+    "require_counters": {"quick": {"reported_inputs_formatted": 6, "full_formats_checked": 100, "range_formats_checked": 300, "ontype_formats_checked": 300, "webide_formats_checked": 100}, "thorough": {"full_formats_checked": 1200}},
     "rule": "texts: 12 built-in programs (all statement kinds, CRLF, comments/pragmas/strings mixed on one line, long lines, syntax errors), token-level mutants of them, every .st file < 6 kB under "
             "/repo and mutants of those, and the adjacent-token gluing matrix (39 x 39 token pairs, spaced and unspaced; cells are consumed round-robin, thorough completes it). configs: random subsets "
             "of indentWidth {1,2,4,8}, insertSpaces, keywordCase, alignVarDecls, alignAssignments, maxLineLength {10,20,40,80,120}, spacingStyle, endKeywordStyle via didChangeConfiguration + "
